@@ -88,7 +88,22 @@ NextMemccpy ==
        IN /\ (s # NULLP => s + sl <= N + (IF sterm THEN 0 ELSE 1))
           /\ Truthful(c) /\ st' = c
 
-Next == st.fn = "init" /\ (NextStrCopy \/ NextMemCopy \/ NextFill \/ NextMemccpy)
+XAlpha == {32, 97, 90}
+RECURSIVE XStrs(_)
+XStrs(k) == IF k = 0 THEN {<<>>} ELSE LET S == XStrs(k - 1) IN S \cup {Append(x, c) : x \in {t \in S : Len(t) = k - 1}, c \in XAlpha}
+XformStrs == XStrs(K) \cup {<<9, 97, 9>>, <<9>>, <<65, 122, 91, 64>>}
+NextXform ==
+  /\ st.f \in StrXformFns
+  /\ \E dmax \in Sizes \cup {K + 1}, str \in XformStrs, dterm \in BOOLEAN :
+     \E dbos \in BosChoices(dmax) :
+       LET d == st.d
+           dl == Len(str)
+           a == IF d # NULLP /\ (dterm \/ dl > 0) THEN Place(Blank, d, str, dterm) ELSE Blank
+           c == Case(st.f, d, dmax, 0, 0, 0, 0, dbos, UNK, 0, a)
+       IN /\ (dl > 0 \/ dterm) => (d # NULLP /\ d + dl <= N + (IF dterm THEN 0 ELSE 1))
+          /\ Truthful(c) /\ st' = c
+
+Next == st.fn = "init" /\ (NextStrCopy \/ NextMemCopy \/ NextFill \/ NextMemccpy \/ NextXform)
 Spec == Init /\ [][Next]_st
 
 Cases(c) == {[c EXCEPT !.slack = x] : x \in {0, 1}}
